@@ -10,6 +10,7 @@ PROP = "C16"
 ZONES = ["UTC", "Etc/GMT-5", "Etc/GMT+8", "Asia/Kolkata", "Europe/Berlin", "America/New_York", "Australia/Sydney", "Pacific/Chatham",
          "Australia/Lord_Howe", "Europe/Dublin", "Africa/Casablanca", "America/St_Johns", "America/Sao_Paulo"]
 YEAR = 2021
+LINKED_SIZE = 4321
 ISO = re.compile(r"^\d{4}-\d\d-\d\dT\d\d:\d\d:\d\d(\.\d{1,6})?([+-]\d\d:\d\d|Z)$")
 UTC = datetime.timezone.utc
 
@@ -66,11 +67,22 @@ def eval_case(ctx, case):
     tree["d/inner.txt"] = b"x"
     mt = {p: mtime + 0.5 for p in tree}
     mt[""] = mtime + 0.5
+    # a file that is reached through a symbolic link is hashed through the link: its record describes the file that was hashed
+    import os
+    sub.materialise(ctx.root, tree, mtimes=mt)
+    target = os.path.join(ctx.base, "link-target.bin")
+    with sub.REAL["open"](target, "wb") as f:
+        f.write(b"\x01" * LINKED_SIZE)
+    os.utime(target, (mtime + 0.5, mtime + 0.5))
+    os.symlink(target, os.path.join(ctx.root, "linked.bin"))
+    os.utime(os.path.join(ctx.root, "linked.bin"), (mtime - 86400 * 40, mtime - 86400 * 40), follow_symlinks=False)
+    os.utime(ctx.root, (mtime + 0.5, mtime + 0.5))
     sub.set_tz(zone)
     try:
-        res, post = ops.run_cmd(ctx, tree, ops.create("", ["md5"]), now + 0.25, mtimes=mt, tz=zone)
+        res, post = ops.run_cmd(ctx, tree, ops.create("", ["md5"]), now + 0.25, mtimes=mt, tz=zone, keep=True)
     finally:
         sub.set_tz("UTC")
+        os.remove(target)
     if res.exit != 0 or res.exc:
         V("create-fails", f"exit {res.exit} {res.exc}")
         return v
@@ -98,6 +110,9 @@ def eval_case(ctx, case):
 
     check_date("creationdate", m["creationdate"], now + 0.25, 1.0)
     for rec in m["records"]:
+        if rec["kind"] == "file" and rec["path"] == "linked.bin":
+            if rec["size"] != str(LINKED_SIZE):
+                V("size-wrong", f"linked.bin (a link to a file of {LINKED_SIZE} bytes, hashed through the link) recorded size {rec['size']!r}", linked=True)
         if rec["kind"] == "file" and rec["path"].startswith("f"):
             n = int(rec["path"][1:-4])
             if rec["size"] is None:
@@ -154,7 +169,7 @@ def main(tier, seed):
     cov = {"evaluations": len(cases), "distinct_nontrivial": len(distinct), "exhaustive": True, "zones": len(zones),
            "rule": "product zone x now x mtime x sizes: zones {UTC, fixed +5, fixed -8, +5:30, Berlin, New York, Sydney, Chatham} "
                    "(thorough: every zone of the system tz database with a transition in 2021); now and mtime each in {mid-January, "
-                   "mid-July, 1 s before / after each transition of 2021}; sizes {0, 1, 1 MiB+1}; every seal with TZ set + tzset() "
+                   "mid-July, 1 s before / after each transition of 2021}; sizes {0, 1, 1 MiB+1} and a file reached through a symbolic link (its own mtime 40 days older); every seal with TZ set + tzset() "
                    "and a virtual clock; size attribute == real size, every date well-formed ISO-8601, true instant (within 1 s), "
                    "offset == zoneinfo offset at that instant, manifest name == UTC time"}
     eng.assumptions.append("zoneinfo + the system tz database are the reference for offsets")
